@@ -783,6 +783,13 @@ func c12Run(line string, out *hx.Out) (string, bool) {
 		out.Count("xappend:" + c12ErrKind(err))
 		if len(after) > 255 {
 			out.Count("xappend:pipe-left-longer-than-255")
+			out.Violate(line, "pipe-length", fmt.Sprintf("Append returned %v and left %d filters in the pipe", err, len(after)), "c12:pipe-left-too-long")
+		}
+		if err != nil && !bytes.Equal(after, cur) {
+			out.Violate(line, "append-all-or-nothing", fmt.Sprintf("Append returned %v but changed the pipe from %s to %s", err, c12Digest(cur), c12Digest(after)), "c12:append-not-atomic")
+		}
+		if len(all) > 255 {
+			out.Violate(line, "pipe-length", fmt.Sprintf("AppendFrom left %d filters in the pipe", len(all)), "c12:pipe-left-too-long")
 		}
 		return fmt.Sprintf("append=%s after=%s len=%d from=%s wire=%s range=%s reset=%d", c12ErrKind(err), c12Digest(after), len(after),
 			c12Digest(all), c12Digest(wire), c12Digest(vis), p.Len()), true
